@@ -94,7 +94,7 @@ def gen_query(rng):
             limit = rng.choice([1, 2, 5])
         if limit is not None and rng.random() < 0.4:
             offset = rng.choice([1, 2])
-    return dict(single=single, fields=fields, filters=filters, order=order, limit=limit, offset=offset)
+    return dict(single=single, fields=fields, filters=filters, order=order, limit=limit, offset=offset, bare_asc=rng.random() < 0.6)
 
 
 def structured_run(L, q):
@@ -126,7 +126,8 @@ def sql_text(q, style):
         table = "orders"
     filters = [(x.replace("orders.", "") if style == "unqualified_where" else x) for x in q["filters"]]
     where = (" WHERE " + " AND ".join(filters)) if filters else ""
-    order = (" ORDER BY " + ", ".join("%s %s" % (o, "DESC" if d else "ASC") for o, d in q["order"])) if q["order"] else ""
+    # an ascending key is written with or without the ASC keyword (a key without a direction keyword is ascending, whatever precedes it)
+    order = (" ORDER BY " + ", ".join(("%s DESC" % o) if d else (o if q.get("bare_asc") else "%s ASC" % o) for o, d in q["order"])) if q["order"] else ""
     lim = (" LIMIT %d" % q["limit"]) if q["limit"] is not None else ""
     off = (" OFFSET %d" % q["offset"]) if q["offset"] else ""
     core = "SELECT %s FROM %s%s%s%s%s" % (", ".join(proj), table, where, order, lim, off)
